@@ -633,6 +633,97 @@ def anytrait_cells(ctx):
         ctx.outcome("object-collected")
 
 
+    # 6. the function-level API with a dispatcher of the caller's own: a
+    # bound method (a new but equal object at every access), a callable
+    # instance, a partial; all counts k = 1..3 and every expression kind
+    import functools
+    from traits.observation.api import observe as api_observe, parse
+
+    class Disp:
+        def __init__(self):
+            self.seen = 0
+
+        def dispatch(self, handler, event):
+            self.seen += 1
+            handler(event)
+
+        __call__ = dispatch
+
+    def _plain(handler, event, tag=None):
+        handler(event)
+    for dkind in ("bound-method", "callable-instance", "partial"):
+        for expr, mutate in (
+                ("value", lambda p: setattr(p[0], "value", p[0].value + 1)),
+                ("child.value",
+                 lambda p: setattr(p[1], "value", p[1].value + 1)),
+                ("kids.items.value",
+                 lambda p: setattr(p[2], "value", p[2].value + 1))):
+            for k in (1, 2, 3):
+                case = {"anytrait": "own-dispatcher", "dispatcher": dkind,
+                        "expr": expr, "k": k}
+                ctx.case(case)
+                ctx.ev()
+                ctx.tr()
+                pool = G.make_pool()
+                pool[0].child = pool[1]
+                pool[0].kids = [pool[2]]
+                disp = Disp()
+                # (partial objects have no value equality: one object)
+                part = functools.partial(_plain, tag=1)
+                get = {"bound-method": lambda: disp.dispatch,
+                       "callable-instance": lambda: disp,
+                       "partial": lambda: part,
+                       }[dkind]
+                calls = []
+
+                def hd(ev):
+                    calls.append(ev.name)
+                base = G.fingerprint(pool)
+                for _ in range(k):
+                    api_observe(pool[0], parse(expr), hd, dispatcher=get())
+                mutate(pool)
+                if len(calls) != 1:
+                    ctx.violation(
+                        "C09:own-dispatcher:calls:%s" % dkind,
+                        "%d registrations of one (handler, expression, "
+                        "dispatcher) called the handler %d times for one "
+                        "change" % (k, len(calls)), **case)
+                ok = True
+                for i in range(k):
+                    try:
+                        api_observe(pool[0], parse(expr), hd, remove=True,
+                                    dispatcher=get())
+                    except NotifierNotFound:
+                        ok = False
+                        ctx.violation(
+                            "C09:own-dispatcher:removal-raises:%s" % dkind,
+                            "removal %d of %d registrations raised "
+                            "NotifierNotFound" % (i + 1, k), **case)
+                        break
+                if not ok:
+                    continue
+                try:
+                    api_observe(pool[0], parse(expr), hd, remove=True,
+                                dispatcher=get())
+                    ctx.violation(
+                        "C09:own-dispatcher:extra-removal:%s" % dkind,
+                        "removal %d of %d registrations did not raise"
+                        % (k + 1, k), **case)
+                except NotifierNotFound:
+                    ctx.outcome("NotifierNotFound")
+                del calls[:]
+                mutate(pool)
+                if calls or G.fingerprint(pool) != base:
+                    ctx.violation(
+                        "C09:own-dispatcher:left-behind:%s" % dkind,
+                        "after as many removals as registrations the "
+                        "handler was called %d times / notifiers are left "
+                        "behind" % len(calls), **case)
+                else:
+                    ctx.outcome("owner-collected" if False else
+                                "object-collected")
+
+
 def shards(tier):
     evs = event_menu()
     n = len(evs)
